@@ -13,7 +13,9 @@ import (
 
 // text JSON carries without escapes (no quotes, backslashes, control characters, <, >, &, U+2028/9)
 var textPool = []string{"alpha", "Beta Gamma", "d-e_f.g", "Ünïcödé", "日本語テキスト", "é combining", "emoji 🚀 ok", "עברית", "x", "1.2.3-rc1+build",
-	"https://example.com/a/b?c=d", "MIT OR Apache-2.0", "Copyright (c) 2024 The Authors", "tab-free text with  two spaces"}
+	"https://example.com/a/b?c=d", "MIT OR Apache-2.0", "Copyright (c) 2024 The Authors", "tab-free text with  two spaces",
+	// code-point sequences that a normalisation would change, and characters a text filter might touch
+	"e\u0301 decomposed", "\u1112\u1161\u11ab jamo", "\u212b angstrom sign", "\ufeffbom inside", "line1\r\nline2", "cr\ronly", "trailing space ", strings.Repeat("long text ", 600)}
 
 // includes identifiers that merely look like the reserved, reader-generated ones
 var spdxIDPool = []string{"a", "b", "c", "pkg-1", "File.2", "X-9", "n0", "lib.z-3", "root", "Zed", "Package-autoconf", "pkg-automake--1.16", "x-auto--1", "auto", "node--7", "Document", "document", "DOCUMENTS", "NONE", "NOASSERTION"}
@@ -21,7 +23,8 @@ var spdxIDPool = []string{"a", "b", "c", "pkg-1", "File.2", "X-9", "n0", "lib.z-
 func txt(r *rand.Rand) string { return pick(r, textPool) }
 
 func tsOf(r *rand.Rand) *timestamppb.Timestamp {
-	ts := &timestamppb.Timestamp{Seconds: pick(r, []int64{1577934245, 946684800, 1700166898, 1, 1767225599})}
+	// ordinary instants, the Unix epoch, the first and the last second protobuf calls valid (years 1 and 9999), a year turn, a leap day
+	ts := &timestamppb.Timestamp{Seconds: pick(r, []int64{1577934245, 946684800, 1700166898, 1, 1767225599, 0, -62135596800, 253402300799, 1709251199, -1})}
 	// dates are carried to the second: a sub-second part must neither be kept nor round the second up
 	ts.Nanos = pick(r, []int32{0, 0, 1, 499999999, 500000000, 750000000, 999999999})
 	return ts
@@ -176,6 +179,9 @@ func newDoc(r *rand.Rand) *sbom.Document {
 		// the identifier is the caller's string: other spellings of a UUID and plain text are kept as they are
 		"URN:UUID:3E671687-395B-41F5-A30F-A58921A69B79", "3e671687-395b-41f5-a30f-a58921a69b79", "{3e671687-395b-41f5-a30f-a58921a69b79}", "my-serial-7"})
 	d.Metadata.Version = fmt.Sprint(1 + r.Intn(5))
+	if r.Intn(6) == 0 {
+		d.Metadata.Version = pick(r, []string{"9007199254740993", "2147483648", "9223372036854775807", "0"}) // beyond float64 / int32 exactness
+	}
 	if r.Intn(4) == 0 {
 		// document-level metadata beyond the listed properties: observed, never judged as a violation
 		d.Metadata.Comment = "document comment"
@@ -287,6 +293,16 @@ func cdxNode(r *rand.Rand, id string, p float64, v15 bool, sweep int) *sbom.Node
 // genCDXDoc: one root, all other nodes in a containment tree under it (any depth / fan-out), the
 // contains edges stored in random order and random grouping of targets.
 func genCDXDoc(r *rand.Rand, i int, v15 bool) *sbom.Document {
+	if i%120 == 119 {
+		d := deepChain(r, 420)
+		d.NodeList.Nodes[0].Id, d.NodeList.RootElements = "root", []string{"root"}
+		for _, e := range d.NodeList.Edges {
+			if e.From == "n0" {
+				e.From = "root"
+			}
+		}
+		return d
+	}
 	d := newDoc(r)
 	if i%4 == 3 {
 		d.Metadata.Name = txt(r)
@@ -360,7 +376,24 @@ func genCDXDoc(r *rand.Rand, i int, v15 bool) *sbom.Document {
 
 // genFreeDoc: arbitrary well-formed documents outside the round-trippable classes: several purposes,
 // dependency edges between arbitrary nodes, DAG and cyclic shapes, several or no roots.
+// deepChain: a containment chain far deeper than anything a generator produces by chance (nesting limits, recursion).
+func deepChain(r *rand.Rand, depth int) *sbom.Document {
+	d := newDoc(r)
+	for k := 0; k < depth; k++ {
+		d.NodeList.Nodes = append(d.NodeList.Nodes, &sbom.Node{Id: fmt.Sprintf("n%d", k), Name: fmt.Sprintf("level %d", k), Version: "1"})
+		if k > 0 {
+			d.NodeList.Edges = append(d.NodeList.Edges, &sbom.Edge{Type: sbom.Edge_contains, From: fmt.Sprintf("n%d", k-1), To: []string{fmt.Sprintf("n%d", k)}})
+		}
+	}
+	r.Shuffle(len(d.NodeList.Edges), func(a, b int) { d.NodeList.Edges[a], d.NodeList.Edges[b] = d.NodeList.Edges[b], d.NodeList.Edges[a] })
+	d.NodeList.RootElements = []string{"n0"}
+	return d
+}
+
 func genFreeDoc(r *rand.Rand, i int) *sbom.Document {
+	if i%60 == 59 {
+		return deepChain(r, 420)
+	}
 	d := newDoc(r)
 	if maybe(r, 0.5) {
 		d.Metadata.Name = txt(r)
